@@ -573,7 +573,9 @@ class KafkaClient(object):
                 self.topic_partitions[topic].append(partition)
                 topic_part = TopicAndPartition(topic, partition)
                 self.partition_meta[topic_part] = meta
-                if meta.leader == -1:
+                if meta.leader == -1 or meta.leader not in brokers:
+                    # No leader, or one the response itself does not list (a
+                    # broker that has just gone away): nobody to send to
                     log.warning("No leader for topic %s partition %s", topic, partition)
                     self.topics_to_brokers[topic_part] = None
                 else:
